@@ -159,7 +159,14 @@ class SetupPart2:
             f = r["failures"][0]
             f.update({"confirmed": True, "source": "scenario-table", "key": f["clause"]})
             return f
-        return {"confirmed": False, "inputs_tried": r["cases"], "note": "no scenario of the table fails on the real code"}
+        # directed search: honest runs until a leading-zero SRP value (1 in 256 per value) has been hit
+        from harness import hap_accessory as h
+        from aiohomekit.protocol import perform_pair_setup_part1 as p1, perform_pair_setup_part2 as p2
+
+        d = h.run_setup_leading_zero_search(p1, p2, 1200)
+        if d["failure"]:
+            return {"confirmed": True, "source": "directed-honest-search", "clause": "C03/aiohomekit.protocol:perform_pair_setup_part2#SetupPart2/scenario.honest", "key": "honest", "scenario": d["failure"], "runs": d["runs"]}
+        return {"confirmed": False, "inputs_tried": r["cases"] + d["runs"], "note": "no scenario of the table fails on the real code"}
 
 
 def srpA(a):
